@@ -15,7 +15,7 @@ RULE = ('each generated deck (flat / universes / lattices / LIKE cells, with TR 
         'TR and IMP cards. The written file must be byte-identical to that of the canonical text apart from the '
         'header comment. Also: the 128 upstream decks of the repository are converted (corpus, must not raise). '
         'Streams cards: get_cards/Card.content vs the Lean lexer model. Distinct = (deck, style).')
-NOT_PROVED = []
+NOT_PROVED = ['block splitting at blank lines, letter case and the card-splitting regular expressions (decided by the cards correspondence and the restyling differential)']
 ASSUMPTIONS = ['densities and material fractions are only respelled within their spelling class (C09): the strings are '
                'copied into composition names / the COMPOSITION block']
 
